@@ -4,7 +4,8 @@ cd /verif
 for d in seeded/*/; do
   id=$(basename $d)
   prop=$(python3 -c "import json;print(json.load(open('$d/meta.json'))['property'])")
-  out=$(lib/seed_run.sh /verif/$d/patch.diff $prop 2>&1)
+  runner=lib/seed_run.sh; [ -n "$SEED_ALT" ] && runner=lib/seed_run_alt.sh   # SEED_ALT=1: leave /repo alone (scratch worktree + VERIF_REPO)
+  out=$($runner /verif/$d/patch.diff $prop 2>&1)
   v=$(echo "$out" | grep -E "^(OK|VIOLATION)" | head -1 | cut -c1-90)
   k=$(echo "$out" | grep -E "^  failing-input" | head -1 | sed 's/^  failing-input\[\([^]]*\)\].*/\1/')
   pr=intact; echo "$out" | grep -q "^  broken\[proof\]" && pr=broken
@@ -12,3 +13,5 @@ for d in seeded/*/; do
   echo "$id | $prop | $v | first-failing-kind=${k:--} | proof=$pr | correspondence=$co"
 done
 git -C /repo status --short | head -3
+# leave lean/GoCrypt/Gen describing the unchanged tree again (it is committed)
+rm -f run/gogen.stamp; ./run/bin/gogen -repo /repo -out lean/GoCrypt/Gen >/dev/null 2>&1; git -C /repo worktree prune
